@@ -262,3 +262,37 @@ func H_C10_close_state_machine() {
 	vAssert("second-close-is-harmless", err2 == nil && vCloseCalls == before)
 	vReach("end")
 }
+
+// H_C10_siblings_do_not_interfere: two extractors derived from the same base do not see each other's pages.
+//
+//symgo:harness prop=C10 kernel=K2-sibling-derivation noreplay=1
+//symgo:desc base built by PageRange(1,k) with k in 1..4 (so its page slice may have spare capacity under Go's append growth) or by Pages(...); two siblings x := base.Pages(a) and y := base.Pages(b) (or PageRange) with symbolic a, b: after deriving y, x still selects exactly base+a and base still selects exactly its own pages
+func H_C10_siblings_do_not_interfere() {
+	k := vAnyIntIn(1, 4)
+	var base *Extractor
+	root := &Extractor{format: format.PDF, options: defaultOptions()}
+	if vAnyIntIn(0, 1) == 0 {
+		base = root.PageRange(1, k)
+	} else {
+		base = root
+		for i := 1; i <= k; i++ {
+			base = base.Pages(i)
+		}
+	}
+	a, b := vAnyIntRange(10, 20), vAnyIntRange(30, 40)
+	x := base.Pages(a)
+	var y *Extractor
+	if vAnyIntIn(0, 1) == 0 {
+		y = base.Pages(b)
+	} else {
+		y = base.PageRange(b, b+1)
+	}
+	vAssert("base-unchanged", len(base.options.pages) == k)
+	for i := 0; i < k; i++ {
+		vAssert("base-pages", base.options.pages[i] == i+1)
+	}
+	vAssert("first-sibling-length", len(x.options.pages) == k+1)
+	vAssert("first-sibling-keeps-its-own-page", x.options.pages[k] == a)
+	vAssert("second-sibling-has-its-own-page", len(y.options.pages) >= k+1 && y.options.pages[k] == b)
+	vReach("end")
+}
